@@ -124,6 +124,10 @@ type isoEnv struct {
 	rich   func(uuid string, variant int) model.Model
 	conds  func(uuid string) map[string][]ovsdb.Condition
 	fieldP func(m model.Model) (interface{}, interface{}) // pointer to an indexed/identifying field and its value for WhereAll
+	// indexField: a Go field covered by an index (schema index if indexSchema, else client index); look-ups by a model that
+	// carries only this field go through the index instead of the _uuid
+	indexField  string
+	indexSchema bool
 }
 
 type recHandler struct {
@@ -249,6 +253,43 @@ func (e *isoEnv) readers(tc *cache.TableCache, uuid string) map[string]func() mo
 			}
 			return ms[uuid]
 		}
+	}
+	if e.indexField != "" {
+		// a model without _uuid whose indexed field has the value the cached row has now
+		iprobe := func() model.Model {
+			p := reflect.New(e.typ.Elem()).Interface()
+			cur := t.Row(uuid)
+			if cur == nil {
+				return p
+			}
+			reflect.ValueOf(p).Elem().FieldByName(e.indexField).Set(reflect.ValueOf(cur).Elem().FieldByName(e.indexField))
+			return p
+		}
+		if e.indexSchema {
+			rd["RowByModel(by index)"] = func() model.Model {
+				_, m, err := t.RowByModel(iprobe())
+				if err != nil {
+					panic(err)
+				}
+				return m
+			}
+			rd["api.Get(by index)"] = func() model.Model {
+				p := iprobe()
+				if err := api.Get(context.Background(), p); err != nil {
+					panic(err)
+				}
+				return p
+			}
+		}
+		rd["RowsByModels(by index)"] = func() model.Model {
+			ms, err := t.RowsByModels([]model.Model{iprobe()})
+			if err != nil {
+				panic(err)
+			}
+			return ms[uuid]
+		}
+		rd["Where(by index).List"] = func() model.Model { return list(api.Where(iprobe())) }
+		rd["Where(by index).List[]T"] = func() model.Model { return listV(api.Where(iprobe())) }
 	}
 	if e.fieldP != nil {
 		rd["WhereAll.List"] = func() model.Model {
@@ -521,7 +562,7 @@ func runC13(r *ev.Run) {
 			"b!=":            {ovsdb.NewCondition("s", ovsdb.ConditionNotEqual, "no such value")},
 		}
 	}
-	(&isoEnv{kind: "runtime-struct", dbm: te.dbm, table: "T", typ: te.dbs.Types["T"], rich: rich, conds: conds,
+	(&isoEnv{kind: "runtime-struct", dbm: te.dbm, table: "T", typ: te.dbs.Types["T"], rich: rich, conds: conds, indexField: schemas.FieldName("i"), indexSchema: true,
 		fieldP: func(m model.Model) (interface{}, interface{}) {
 			return reflect.ValueOf(m).Elem().FieldByName(schemas.FieldName("s")).Addr().Interface(), "no such value"
 		}}).run(r)
@@ -532,6 +573,7 @@ func runC13(r *ev.Run) {
 		panic(err)
 	}
 	sschema = serverdb.Schema()
+	scm.SetIndexes(map[string][]model.ClientIndex{"Database": {{Columns: []model.ColumnKey{{Column: "name"}}}}})
 	sdbm, errs := model.NewDatabaseModel(sschema, scm)
 	if len(errs) > 0 {
 		panic(fmt.Sprint(errs))
@@ -541,7 +583,7 @@ func runC13(r *ev.Run) {
 		i := 7 + variant
 		return &serverdb.Database{UUID: uuid, Cid: s("cid"), Connected: true, Index: &i, Leader: variant%2 == 0, Model: serverdb.DatabaseModelClustered, Name: fmt.Sprintf("db%d", variant), Schema: s("schema"), Sid: s("sid")}
 	}
-	(&isoEnv{kind: "generated-deepcopy", dbm: sdbm, table: "Database", typ: reflect.TypeOf(&serverdb.Database{}), rich: srich,
+	(&isoEnv{kind: "generated-deepcopy", dbm: sdbm, table: "Database", typ: reflect.TypeOf(&serverdb.Database{}), rich: srich, indexField: "Name",
 		conds: func(uuid string) map[string][]ovsdb.Condition {
 			return map[string][]ovsdb.Condition{"none": nil, "_uuid==": {ovsdb.NewCondition("_uuid", ovsdb.ConditionEqual, ovsdb.UUID{GoUUID: uuid})}, "name!=": {ovsdb.NewCondition("name", ovsdb.ConditionNotEqual, "zzz")}}
 		},
